@@ -210,9 +210,19 @@ func suiteCopyright(env *Env, res *Result) {
 	var pending []pendingFailure
 	for i := 0; i < n; i++ {
 		text := genConf(r)
+		if i < 3 {
+			// a rule line of 64 KiB or more between marker lines: every line behind it must still be there
+			L := []int{65535, 65536, 70000}[i]
+			long := "SecRule ARGS \"@pm " + strings.Repeat("word ", L/5) + "\" \\"
+			text = "# OWASP CRS ver.4.0.0\n" + long + "\n    \"id:942100,ver:'OWASP_CRS/4.0.0'\"\n" + text + "SecComponentSignature \"OWASP_CRS/4.0.0\"\n"
+		}
 		v := genVersionText(r)
 		y := strconv.Itoa(r.Range(2022, 2099))
 		out, ok := updateRulesImpl(v, y, text)
+		if ok && text != "" && strings.Count(out, "\n") < strings.Count(text, "\n") {
+			res.addFailure(Failure{Kind: "copyright", Shape: "copyright_lines_lost", Input: map[string]string{"contents": clip(text, 400), "v": v, "y": y, "length": strconv.Itoa(len(text))},
+				Detail: fmt.Sprintf("the file has %d line breaks, the rewritten file %d: text that carries no marker was dropped", strings.Count(text, "\n"), strings.Count(out, "\n"))})
+		}
 		impl := "ERR"
 		if ok {
 			impl = "OK\t" + hx(out)
